@@ -2,7 +2,7 @@
 (* GENERATED from harness/kinds_C10.py (python harness/kinds_C10.py); the check refuses to run if they differ. *)
 EXTENDS Serialise
 
-Kinds == {"seq_old", "seq_new", "aln", "array_aln", "coll", "new_coll", "tree", "table", "dists", "dict_array", "indel_map", "feature_map", "aligned", "annotation_db", "lf", "lf_multilocus", "lf_rate_free", "lf_rate_gamma", "lf_site_hmm", "annotation_db_gff", "annotation_db_gb", "seqview", "lf_gn", "ns_submodel", "new_alphabet_char", "new_alphabet_kmer", "new_alphabet_codon", "hypothesis_result", "tabular_result", "submodel", "codon_model", "moltype", "alphabet", "not_completed", "model_result", "generic_result"}
+Kinds == {"seq_old", "seq_new", "aln", "array_aln", "coll", "new_coll", "tree", "table", "dists", "dict_array", "indel_map", "feature_map", "aligned", "annotation_db", "lf", "lf_multilocus", "lf_rate_free", "lf_rate_gamma", "lf_site_hmm", "annotation_db_gff", "annotation_db_gb", "seqview", "lf_gn", "ns_submodel", "new_alphabet_char", "new_alphabet_kmer", "new_alphabet_codon", "hypothesis_result", "tabular_result", "submodel", "codon_model", "moltype", "alphabet", "alphabet_char", "submodel_user", "not_completed", "model_result", "generic_result"}
 KindOpsDef == [k \in Kinds |-> CASE k = "seq_old" -> {"add_feature", "rc", "slice_mid", "slice_neg", "stride2", "to_rna"}
                                   [] k = "seq_new" -> {"add_feature", "rc", "slice_mid", "slice_neg", "stride2", "to_rna"}
                                   [] k = "aln" -> {"modified_termini", "omit_gap_pos", "rc", "slice_cols", "take_positions", "take_seqs", "to_rna"}
@@ -36,6 +36,8 @@ KindOpsDef == [k \in Kinds |-> CASE k = "seq_old" -> {"add_feature", "rc", "slic
                                   [] k = "codon_model" -> {}
                                   [] k = "moltype" -> {}
                                   [] k = "alphabet" -> {}
+                                  [] k = "alphabet_char" -> {"reordered", "with_gap", "words2"}
+                                  [] k = "submodel_user" -> {}
                                   [] k = "not_completed" -> {}
                                   [] k = "model_result" -> {}
                                   [] k = "generic_result" -> {"add_tree"}]
